@@ -240,6 +240,7 @@ pub fn record_inst(rest: &[String]) -> anyhow::Result<()> {
         let mut ast = {
             let mut g = gen::Gen::new(&mut rng);
             g.set_fail_rate(if i % 2 == 0 { 25 } else { 3 });
+            g.set_dialect(true);
             g.module(4 + (i % 7) as usize, wrap)
         };
         let src = print::module(&mut ast);
